@@ -7,6 +7,8 @@
   Part 2: the library tables: the safe library has no file-reading, network or command function.
   Part 3: confinement of the transliterated evaluator (Impl) for every source, configuration and fuel.
   Part 4: every repair is necessary: with any one of them switched off the model escapes.
+  One route is left open in the tree (KF-dynvar-leak): `confinement` is proved for the specification
+  semantics, `confinement_partial` for the tree, `confinement_full_false` shows the difference is real.
 -/
 import Arrai.C18.Lemmas
 import Arrai.C18.Expected
@@ -65,28 +67,56 @@ theorem unrepaired_safe_has_exec : Cap.exec ∈ (safeLibOf safeGoUnrepaired).rea
 
 /-! ### Part 3 — confinement -/
 
-/-- **Confinement.** For every file system, configuration `ec`, capability set `C` containing what the
+/-- **Confinement (specification semantics).** With the sandbox boundary also closed to dynamic variables
+(`specWorld`): for every file system, configuration `ec`, capability set `C` containing what the
 configuration hands over (its stdlib — the safe library when absent — and its scope), every source `a`,
-every fuel and calling context: the value returned by sandboxed evaluation reaches only capabilities
-in `C`, and every effect performed on the way exercises a capability in `C`. -/
+every fuel and every calling context, the value returned by sandboxed evaluation reaches only
+capabilities in `C`, and every effect performed on the way exercises a capability in `C`. -/
 theorem confinement (fs : List (String × File)) (ec : EvalConfig) (C : List Cap)
-    (hC : cfgCaps (world fs) ec ⊆ C) (a : Ast) (ha : a.isSource = true) (fuel : Nat) (c : Ctx) :
-    Spec.Confined C (sandboxEval (world fs) fuel c ec a) :=
-  confinement_general (world fs) rfl safe_within_safeCaps ec C hC a ha fuel c
+    (hC : cfgCaps (specWorld fs) ec ⊆ C) (a : Ast) (ha : a.isSource = true) (fuel : Nat) (c : Ctx) :
+    Spec.Confined C (sandboxEval (specWorld fs) fuel c ec a) :=
+  confinement_general (specWorld fs) ⟨rfl, rfl, rfl, rfl⟩ safe_within_safeCaps ec C hC a ha fuel c (Or.inl rfl)
 
-/-- the hypotheses of `confinement` are satisfiable by non-trivial values: a configuration handing over
-//os.file, the escape attempt of the original probe as source -/
+/-- what full strength would mean for the tree as it is (`world`: the five repairs committed, the Go context
+passed into the sandbox unchanged) -/
+def confinement_full : Prop :=
+  ∀ (fs : List (String × File)) (ec : EvalConfig) (C : List Cap), cfgCaps (world fs) ec ⊆ C →
+    ∀ (a : Ast), a.isSource = true → ∀ (fuel : Nat) (c : Ctx), Spec.Confined C (sandboxEval (world fs) fuel c ec a)
+
+/-- **Confinement of the tree (partial).** The same statement for the transliteration of the tree, for every
+calling context whose dynamic variables `@{x}` reach only `C` (in particular: none bound) — the one route
+left open is `KF-dynvar-leak`. -/
+theorem confinement_partial (fs : List (String × File)) (ec : EvalConfig) (C : List Cap)
+    (hC : cfgCaps (world fs) ec ⊆ C) (a : Ast) (ha : a.isSource = true) (fuel : Nat) (c : Ctx)
+    (hdyn : c.dyn.reach ⊆ C) : Spec.Confined C (sandboxEval (world fs) fuel c ec a) :=
+  confinement_general (world fs) ⟨rfl, rfl, rfl, rfl⟩ safe_within_safeCaps ec C hC a ha fuel c (Or.inr hdyn)
+
+/-- the context of `(\@{x} //eval.eval("…"))(//os.file)`: the caller bound `@{x}` to the file function -/
+def leakCtx : Ctx := { ctx0 with dyn := .cons "@{x}" (.nat ["file"] .readFile .nil) .nil }
+
+/-- full strength is false of the tree: `(\@{x} //eval.eval("@{x}"))(//os.file)` hands the sandboxed source
+a file-reading function that is neither in its scope nor in its library -/
+theorem confinement_full_false : ¬ confinement_full := by
+  intro h
+  have h1 := (h [] ⟨none, .nil⟩ safeLib.reach (by simp [cfgCaps, world, Val.reach]) (.var "@{x}") rfl 8 leakCtx).1
+    (.nat ["file"] .readFile .nil) rfl
+  exact safe_is_safe .readFile (h1 (by simp [Val.reach, capClosure])) (by decide)
+
+/-- the hypotheses of `confinement_partial` are satisfiable by non-trivial values: a configuration handing
+over //os.file, the escape attempt of the original probe as source, a context that binds a dynamic variable -/
 example : cfgCaps (world []) ⟨some (.cons "os" (.cons "file" (.nat ["file"] .readFile .nil) .nil) .nil), .nil⟩
       ⊆ [.readFile] ∧
-    Ast.isSource (.app (.dot (.pkg "eval") "value") (.quote (.dot (.pkg "os") "file"))) = true := by decide
+    Ast.isSource (.app (.dot (.pkg "eval") "value") (.quote (.dot (.pkg "os") "file"))) = true ∧
+    leakCtx.dyn.reach ⊆ [.readFile] := by decide
 
 /-- //eval.eval (empty configuration): nothing dangerous is reachable from the result and no file is
 read, no request sent, no command run — whatever the source does -/
 theorem default_sandbox_is_safe (fs : List (String × File)) (a : Ast) (ha : a.isSource = true)
-    (fuel : Nat) (c : Ctx) :
+    (fuel : Nat) (c : Ctx) (hdyn : c.dyn.reach ⊆ safeLib.reach) :
     (∀ v, (sandboxEval (world fs) fuel c ⟨none, .nil⟩ a).1 = some v → ∀ d ∈ dangerous, d ∉ v.reach) ∧
     (∀ cap arg, Eff.did cap arg ∈ (sandboxEval (world fs) fuel c ⟨none, .nil⟩ a).2 → cap ∉ dangerous) := by
-  have h := confinement fs ⟨none, .nil⟩ safeLib.reach (by simp [cfgCaps, world, Val.reach]) a ha fuel c
+  have h := confinement_partial fs ⟨none, .nil⟩ safeLib.reach (by simp [cfgCaps, world, Val.reach]) a ha fuel c
+    hdyn
   constructor
   · intro v hv d hd hin
     exact safe_is_safe d (h.1 v hv hin) hd
@@ -96,10 +126,11 @@ theorem default_sandbox_is_safe (fs : List (String × File)) (a : Ast) (ha : a.i
 /-- a configuration that hands over nothing dangerous gets nothing dangerous back -/
 theorem harmless_config_stays_harmless (fs : List (String × File)) (ec : EvalConfig)
     (hcfg : ∀ d ∈ dangerous, d ∉ cfgCaps (world fs) ec) (a : Ast) (ha : a.isSource = true)
-    (fuel : Nat) (c : Ctx) :
+    (fuel : Nat) (c : Ctx) (hdyn : c.dyn = .nil) :
     ∀ v, (sandboxEval (world fs) fuel c ec a).1 = some v → ∀ d ∈ dangerous, d ∉ v.reach := by
   intro v hv d hd hin
-  exact hcfg d hd ((confinement fs ec _ (fun _ h => h) a ha fuel c).1 v hv hin)
+  exact hcfg d hd ((confinement_partial fs ec _ (fun _ h => h) a ha fuel c
+    (by simp [hdyn, Val.reach])).1 v hv hin)
 
 /-- **Unbound references fail.** `//x` with `x` not a member of the library in effect fails. -/
 theorem unbound_fails (fs : List (String × File)) (ec : EvalConfig) (l : Val) (x : String)
@@ -135,6 +166,11 @@ def reaches (r : Res) (c : Cap) : Bool :=
 def did (r : Res) (c : Cap) : Bool :=
   r.2.any fun e => match e with | .did c' _ => c' == c | .unmodelled => false
 
+/-- the dynamic-variable leak in the small world, and its absence under the specification semantics -/
+theorem dynvar_leaks_in_tree_not_in_spec :
+    reaches (sandboxEval (tinyWorld Fixes.tree) 8 leakCtx ⟨none, .nil⟩ (.var "@{x}")) .readFile = true ∧
+    (sandboxEval (tinyWorld Fixes.all) 8 leakCtx ⟨none, .nil⟩ (.var "@{x}")).1 = none := by decide
+
 /-- `//eval.eval("//eval.value(\"//os.file\")")` -/
 def valueEscape : Ast := .app (.dot (.pkg "eval") "value") (.quote osFile)
 /-- `//eval.eval("{:(@grammar: …, @transform: (r: \\a //os.file)):x:}")` -/
@@ -143,30 +179,30 @@ def macroEscape : Ast := .mac (.lam "a" osFile)
 def importEscape : Ast := .imp "lib.arrai"
 
 theorem unrepaired_value_escapes :
-    reaches (sandboxEval (tinyWorld { Fixes.all with valueEmpty := false }) 12 ctx0 ⟨none, .nil⟩ valueEscape)
+    reaches (sandboxEval (tinyWorld { Fixes.tree with valueEmpty := false }) 12 ctx0 ⟨none, .nil⟩ valueEscape)
       .readFile = true := by decide
 
 theorem unrepaired_macro_escapes :
-    reaches (sandboxEval (tinyWorld { Fixes.all with macroLib := false }) 12 ctx0 ⟨none, .nil⟩ macroEscape)
+    reaches (sandboxEval (tinyWorld { Fixes.tree with macroLib := false }) 12 ctx0 ⟨none, .nil⟩ macroEscape)
       .readFile = true := by decide
 
 theorem unrepaired_import_escapes :
-    reaches (sandboxEval (tinyWorld { Fixes.all with importReject := false, importLib := false }) 12 ctx0
+    reaches (sandboxEval (tinyWorld { Fixes.tree with importReject := false, importLib := false }) 12 ctx0
       ⟨none, .nil⟩ importEscape) .readFile = true := by decide
 
 /-- even with imported code confined, import syntax in a sandbox reads a file it was not given -/
 theorem unrepaired_import_reads :
-    did (sandboxEval (tinyWorld { Fixes.all with importReject := false }) 12 ctx0 ⟨none, .nil⟩
+    did (sandboxEval (tinyWorld { Fixes.tree with importReject := false }) 12 ctx0 ⟨none, .nil⟩
       (.imp "secret.txt")) .readFile = true := by decide
 
 /-- with all repairs the three witnesses fail -/
 theorem repaired_witnesses_fail :
-    (sandboxEval (tinyWorld Fixes.all) 12 ctx0 ⟨none, .nil⟩ valueEscape).1 = none ∧
-    (sandboxEval (tinyWorld Fixes.all) 12 ctx0 ⟨none, .nil⟩ macroEscape).1 = none ∧
-    sandboxEval (tinyWorld Fixes.all) 12 ctx0 ⟨none, .nil⟩ importEscape = (none, []) := by
+    (sandboxEval (tinyWorld Fixes.tree) 12 ctx0 ⟨none, .nil⟩ valueEscape).1 = none ∧
+    (sandboxEval (tinyWorld Fixes.tree) 12 ctx0 ⟨none, .nil⟩ macroEscape).1 = none ∧
+    sandboxEval (tinyWorld Fixes.tree) 12 ctx0 ⟨none, .nil⟩ importEscape = (none, []) := by
   refine ⟨?_, ?_, ?_⟩
   · decide
   · decide
-  · exact import_rejected_general (tinyWorld Fixes.all) rfl _ _ _ _
+  · exact import_rejected_general (tinyWorld Fixes.tree) rfl _ _ _ _
 
 end Arrai.C18.Theorems
